@@ -314,8 +314,10 @@ func (n *Node) sampleVia(inc *shim.Inc, via uint64) *mon.Sample {
 	n.smu.Lock()
 	defer n.smu.Unlock()
 	floor := n.cl.M.TermFloor(n.ID)
+	lv := n.cl.M.LogVersion(n.ID)
 	s := shim.SampleOf(inc.Raft.VerifState())
 	s.Floor = floor
+	s.LV = lv
 	if inc.Dead() || s.State == "shutdown" {
 		return s
 	}
